@@ -15,8 +15,8 @@ import (
 	"verifharness/internal/zn"
 )
 
-var modName = map[string]string{"a": "甲", "b": "库-乙", "c": "深-层-丙", "d": "缺-丁"}
-var modShort = map[string]string{"a": "甲", "b": "乙", "c": "丙", "d": "丁"}
+var modName = map[string]string{"a": "甲", "b": "库-乙", "c": "深-层-丙", "d": "缺-丁", "e": "库-戊"}
+var modShort = map[string]string{"a": "甲", "b": "乙", "c": "丙", "d": "丁", "e": "戊"}
 
 type modCase struct {
 	Edges [][]string `json:"edges"`
